@@ -1,6 +1,6 @@
 """C04 — a (sub-)circuit's duration spans everything it contains."""
 import random
-from . import progs, streamcheck
+from . import common, progs, streamcheck
 
 PROP = 'C04'
 
